@@ -612,13 +612,11 @@ Fixpoint advance (c : cursor) : cursor :=
     end
   end.
 
-(* newCursorAtStart, root level first *)
-Fixpoint at_start_rf (t : node) : list (list item) :=
-  match t with
-  | Leaf _ => [items t]
-  | Inner cs => items t :: match cs with e :: _ => at_start_rf (snd e) | [] => [] end
-  end.
-Definition cursor_at_start (t : node) : cursor := rev (at_start_rf t).
+(* newCursorAtStart: cur = root at idx 0; `for !cur.isLeaf() { nd = fetchChild(cur.currentRef());
+   cur = &cursor{nd: nd, parent: cur} }` — one refetch per level *)
+Fixpoint descend (n : nat) (c : cursor) : cursor :=
+  match n with O => c | S m => descend m (refetch c) end.
+Definition cursor_at_start (t : node) : cursor := descend (level t) [items t].
 
 (* newCursorPastEnd: idx = count at every level *)
 Definition cursor_past_end (t : node) : cursor := repeat [] (S (level t)).
@@ -711,20 +709,268 @@ Corollary advance_sem_leaf k v f par :
   all_valid par -> cur_sem (advance (((k, EV v) :: f) :: par)) = tl (cur_sem (((k, EV v) :: f) :: par)).
 Proof. intros Hv. exact (advance_sem _ (k, EV v) f par eq_refl Hv). Qed.
 
-Lemma cursor_at_start_sem t : shape t = true -> cur_sem (cursor_at_start t) = flatten t.
+Lemma refetch_ne par : refetch par <> [].
+Proof. destruct par as [|[|[k [v|c ch]] g] p]; discriminate. Qed.
+
+Lemma descend_ne n : forall c, c <> [] -> descend n c <> [].
+Proof. induction n as [|n IH]; intros c H; [exact H|]. cbn [descend]. apply IH, refetch_ne. Qed.
+
+Lemma descend_sem n : forall c, c <> [] -> cur_sem (descend n c) = cur_sem c.
 Proof.
-  unfold cursor_at_start.
-  assert (H : forall t, shape t = true -> forall acc,
-            cur_sem (rev (at_start_rf t) ++ acc) = flatten t ++ above acc).
-  { clear t. induction t as [kvs|cs IH] using node_ind'; intros Hs acc.
-    - cbn [at_start_rf rev app cur_sem]. rewrite flat_frame_items. reflexivity.
-    - destruct cs as [|e cs]; [cbn in Hs; discriminate|].
-      inversion IH as [|? ? He _]; subst. unfold ent_child in He.
-      apply shape_Inner_inv in Hs as (Hs1 & _).
-      cbn [at_start_rf rev]. rewrite <- app_assoc. cbn [app].
-      rewrite (He Hs1). cbn [above items map tl]. rewrite flatten_Inner_cons.
-      rewrite <- app_assoc. f_equal. f_equal.
-      change (map (fun e0 : key * N * node => (fst (fst e0), EC (snd (fst e0)) (snd e0))) cs) with (items (Inner cs)).
-      apply flat_frame_items. }
-  intros Hs. rewrite <- (app_nil_r (rev (at_start_rf t))). rewrite (H t Hs []). apply app_nil_r.
+  induction n as [|n IH]; intros c H; [reflexivity|].
+  cbn [descend]. rewrite IH by apply refetch_ne. apply refetch_sem, H.
 Qed.
+
+Lemma cursor_at_start_sem t : cur_sem (cursor_at_start t) = flatten t.
+Proof.
+  unfold cursor_at_start. rewrite descend_sem by discriminate.
+  cbn [cur_sem above]. rewrite app_nil_r. apply flat_frame_items.
+Qed.
+
+(* ======================================================================== *)
+(* Part 4: cursor invariants (what every cursor the code builds satisfies)   *)
+(* ======================================================================== *)
+
+Definition suffix {A} (s l : list A) : Prop := exists b, l = b ++ s.
+
+Lemma suffix_refl {A} (l : list A) : suffix l l.
+Proof. exists []. reflexivity. Qed.
+Lemma suffix_app {A} (b s : list A) : suffix s (b ++ s).
+Proof. exists b. reflexivity. Qed.
+Lemma suffix_trans {A} (a b c : list A) : suffix a b -> suffix b c -> suffix a c.
+Proof. intros [x ->] [y ->]. exists (y ++ x). apply app_assoc. Qed.
+Lemma suffix_nil {A} (l : list A) : suffix [] l.
+Proof. exists l. symmetry. apply app_nil_r. Qed.
+Lemma suffix_length {A} (s l : list A) : suffix s l -> (length s <= length l)%nat.
+Proof. intros [b ->]. rewrite app_length. lia. Qed.
+
+(* an entry of a frame at level i: a value at level 0, a well-shaped child of
+   level i-1 above *)
+Definition item_ok (i : nat) (x : item) : Prop :=
+  match snd x with
+  | EV _ => i = O
+  | EC _ n => i = S (level n) /\ shape n = true
+  end.
+Definition frame_ok (i : nat) (f : list item) : Prop := Forall (item_ok i) f.
+
+Fixpoint stack_ok (i : nat) (c : cursor) : Prop :=
+  match c with
+  | [] => True
+  | f :: par => frame_ok i f /\ stack_ok (S i) par
+  end.
+
+Definition live (c : cursor) : Prop := Forall (fun f : list item => f <> []) c.
+Definition dead (c : cursor) : Prop := Forall (fun f : list item => f = []) c.
+
+(* every frame is the rest of the node the parent's current entry points to *)
+Fixpoint linked (c : cursor) : Prop :=
+  match c with
+  | [] => True
+  | f :: par =>
+    match par with
+    | (x :: _) :: _ => (exists pre, flat_item x = pre ++ flat_frame f) /\ linked par
+    | _ => linked par
+    end
+  end.
+
+(* what lies ahead of the cursor and of each of its parent cursors *)
+Fixpoint sems (c : cursor) : list (list kv) :=
+  match c with
+  | [] => []
+  | f :: par => (flat_frame f ++ above par) :: sems par
+  end.
+
+(* each of them is a tail of the tree contents T *)
+Definition pos_ok (T : list kv) (c : cursor) : Prop := Forall (fun s => suffix s T) (sems c).
+
+Definition cinv (T : list kv) (i : nat) (c : cursor) : Prop :=
+  c <> [] /\ stack_ok i c /\ (live c \/ dead c) /\ linked c /\ pos_ok T c.
+
+Lemma sems_hd c : c <> [] -> sems c = cur_sem c :: sems (tl c).
+Proof. destruct c; [contradiction|reflexivity]. Qed.
+
+Lemma pos_ok_mono T c c' : Forall2 suffix (sems c') (sems c) -> pos_ok T c -> pos_ok T c'.
+Proof.
+  unfold pos_ok. intros H. induction H as [|s' s l' l Hs _ IH]; intros Hp; [constructor|].
+  inversion Hp as [|? ? Hs0 Hl]; subst. constructor; [exact (suffix_trans _ _ _ Hs Hs0) | apply IH, Hl].
+Qed.
+
+Lemma Forall2_suffix_refl (l : list (list kv)) : Forall2 suffix l l.
+Proof. induction l; constructor; [apply suffix_refl | assumption]. Qed.
+
+Lemma shape_items_ne t : shape t = true -> items t <> [].
+Proof.
+  destruct t as [kvs|cs]; cbn [shape items]; intros H.
+  - destruct kvs; [discriminate|discriminate].
+  - destruct cs; [discriminate|discriminate].
+Qed.
+
+Lemma items_frame_ok t : shape t = true -> frame_ok (level t) (items t).
+Proof.
+  destruct t as [kvs|cs]; intros H; unfold frame_ok; cbn [items].
+  - rewrite Forall_forall. intros x Hx. apply in_map_iff in Hx as (e & <- & _). reflexivity.
+  - cbn [shape] in H. apply andb_true_iff in H as [_ H]. rewrite forallb_forall in H.
+    rewrite Forall_forall. intros x Hx. apply in_map_iff in Hx as (e & <- & He).
+    specialize (H e He). apply andb_true_iff in H as [H H4]. apply andb_true_iff in H as [H _].
+    apply andb_true_iff in H as [H1 _]. unfold item_ok. cbn [snd].
+    apply Nat.eqb_eq in H4. split; [symmetry; exact H4 | exact H1].
+Qed.
+
+Lemma item_ok_ne i x : item_ok i x -> flat_item x <> [].
+Proof.
+  unfold item_ok, flat_item. destruct (snd x) as [v|c n]; [discriminate|].
+  intros [_ Hs]. apply shape_nonempty, Hs.
+Qed.
+
+Lemma dead_sem c : dead c -> cur_sem c = [].
+Proof.
+  destruct c as [|f par]; [reflexivity|]. intros H. inversion H as [|? ? Hf Hp]; subst.
+  cbn [cur_sem flat_frame map concat app]. clear H. induction Hp as [|g p Hg _ IH]; [reflexivity|].
+  subst g. exact IH.
+Qed.
+
+Lemma linked_tl f par : linked (f :: par) -> linked par.
+Proof. cbn [linked]. destruct par as [|[|x g] p]; [trivial|trivial|intros [_ H]; exact H]. Qed.
+
+(* ---- refetch ----------------------------------------------------------------- *)
+
+Lemma refetch_sems par : par <> [] -> sems (refetch par) = cur_sem par :: sems par.
+Proof.
+  intros Hne. rewrite (sems_hd _ (refetch_ne _)). rewrite refetch_sem by exact Hne.
+  destruct par as [|[|[k [v|c ch]] g] p]; [contradiction|reflexivity|reflexivity|reflexivity].
+Qed.
+
+Lemma refetch_length par : length (refetch par) = S (length par).
+Proof. destruct par as [|[|[k [v|c ch]] g] p]; reflexivity. Qed.
+
+Lemma refetch_struct i par :
+  par <> [] -> stack_ok (S i) par -> (live par \/ dead par) -> linked par ->
+  stack_ok i (refetch par) /\ (live (refetch par) \/ dead (refetch par)) /\ linked (refetch par).
+Proof.
+  intros Hne Hso Hlod Hli. destruct par as [|g p]; [contradiction|].
+  destruct Hso as [Hg Hso].
+  destruct g as [|[k [v|c ch]] g'].
+  - cbn [refetch]. repeat split; try assumption.
+    + constructor.
+    + right. destruct Hlod as [Hl|Hd]; [inversion Hl; congruence|]. constructor; [reflexivity|exact Hd].
+  - exfalso. inversion Hg as [|? ? Hx _]; subst. unfold item_ok in Hx. cbn [snd] in Hx. discriminate.
+  - inversion Hg as [|? ? Hx Hg']; subst. unfold item_ok in Hx. cbn [snd] in Hx. destruct Hx as [Hi Hs].
+    injection Hi as Hi. subst i.
+    cbn [refetch]. repeat split; try assumption.
+    + apply items_frame_ok, Hs.
+    + left. destruct Hlod as [Hl|Hd]; [|inversion Hd; discriminate].
+      constructor; [apply shape_items_ne, Hs | exact Hl].
+    + exists []. cbn [app]. unfold flat_item. cbn [snd]. symmetry. apply flat_frame_items.
+Qed.
+
+Lemma refetch_cinv T i par : cinv T (S i) par -> cinv T i (refetch par) /\ cur_sem (refetch par) = cur_sem par.
+Proof.
+  intros (Hne & Hso & Hlod & Hli & Hpos). split; [|apply refetch_sem, Hne].
+  destruct (refetch_struct i par Hne Hso Hlod Hli) as (H1 & H2 & H3).
+  repeat split; try assumption; [apply refetch_ne|].
+  unfold pos_ok. rewrite (refetch_sems par Hne). constructor; [|exact Hpos].
+  unfold pos_ok in Hpos. rewrite (sems_hd _ Hne) in Hpos. inversion Hpos; assumption.
+Qed.
+
+(* ---- advance ------------------------------------------------------------------- *)
+
+Lemma advance_cinv_aux c : forall i,
+  c <> [] -> stack_ok i c -> live c -> linked c ->
+  advance c <> [] /\ stack_ok i (advance c) /\ (live (advance c) \/ dead (advance c))
+  /\ linked (advance c) /\ Forall2 suffix (sems (advance c)) (sems c)
+  /\ length (advance c) = length c.
+Proof.
+  induction c as [|f par IH]; intros i Hne Hso Hl Hli; [contradiction|].
+  inversion Hl as [|? ? Hf Hlp]; subst. destruct f as [|x f']; [contradiction|].
+  destruct Hso as [Hfo Hso]. inversion Hfo as [|? ? Hx Hfo']; subst.
+  destruct f' as [|y f''].
+  - destruct par as [|g p].
+    + cbn [advance]. repeat split; try discriminate.
+      * constructor.
+      * right. constructor; [reflexivity|constructor].
+      * cbn [sems]. constructor; [apply suffix_nil|constructor].
+    + assert (Hadv : advance ([x] :: g :: p) = refetch (advance (g :: p))) by reflexivity.
+      rewrite Hadv. clear Hadv.
+      pose proof (linked_tl _ _ Hli) as Hlip.
+      destruct (IH (S i) ltac:(discriminate) Hso Hlp Hlip) as (Hne' & Hso' & Hlod' & Hli' & Hs' & Hlen').
+      inversion Hlp as [|? ? Hg Hlpp]; subst. destruct g as [|z g']; [contradiction|].
+      assert (Hsem' : cur_sem (advance ((z :: g') :: p)) = flat_frame g' ++ above p)
+        by (apply (advance_sem _ z g' p eq_refl); exact Hlpp).
+      set (par' := advance ((z :: g') :: p)) in *.
+      destruct (refetch_struct i par' Hne' Hso' Hlod' Hli') as (R1 & R2 & R3).
+      repeat split; try assumption; [apply refetch_ne | | rewrite refetch_length, Hlen'; reflexivity].
+      rewrite (refetch_sems par' Hne'). cbn [sems]. constructor; [|exact Hs'].
+      rewrite Hsem'. cbn [above tl]. rewrite flat_frame_cons. rewrite <- app_assoc.
+      apply suffix_app.
+  - cbn [advance]. repeat split; try discriminate; try assumption.
+    + left. constructor; [discriminate|exact Hlp].
+    + cbn [linked]. cbn [linked] in Hli. destruct par as [|[|z g'] p]; try assumption.
+      destruct Hli as [[pre Hpre] Hlip]. split; [|exact Hlip].
+      exists (pre ++ flat_item x). rewrite Hpre. rewrite flat_frame_cons. rewrite <- app_assoc. reflexivity.
+    + cbn [sems]. constructor; [|apply Forall2_suffix_refl].
+      rewrite (flat_frame_cons x (y :: f'')). rewrite <- app_assoc. apply suffix_app.
+Qed.
+
+Lemma live_or_dead_valid c : c <> [] -> (live c \/ dead c) -> cur_valid c = true -> live c.
+Proof.
+  intros Hne [Hl|Hd] Hv; [exact Hl|]. destruct c as [|f par]; [contradiction|].
+  inversion Hd; subst. discriminate.
+Qed.
+
+Lemma live_or_dead_invalid c : c <> [] -> (live c \/ dead c) -> cur_valid c = false -> dead c.
+Proof.
+  intros Hne [Hl|Hd] Hv; [|exact Hd]. destruct c as [|f par]; [contradiction|].
+  inversion Hl as [|? ? Hf _]; subst. destruct f; [contradiction|discriminate].
+Qed.
+
+(* advancing a valid cursor: invariants kept, exactly the current entry consumed *)
+Theorem advance_cinv T i c :
+  cinv T i c -> cur_valid c = true ->
+  cinv T i (advance c) /\ length (advance c) = length c
+  /\ exists x, cur_item c = Some x /\ item_ok i x /\ cur_sem c = flat_item x ++ cur_sem (advance c).
+Proof.
+  intros (Hne & Hso & Hlod & Hli & Hpos) Hv.
+  pose proof (live_or_dead_valid c Hne Hlod Hv) as Hl.
+  destruct (advance_cinv_aux c i Hne Hso Hl Hli) as (A1 & A2 & A3 & A4 & A5 & A6).
+  split; [repeat split; try assumption; exact (pos_ok_mono T _ _ A5 Hpos)|]. split; [exact A6|].
+  destruct c as [|f par]; [contradiction|]. destruct f as [|x f']; [discriminate|].
+  exists x. split; [reflexivity|]. split.
+  - destruct Hso as [Hfo _]. inversion Hfo; assumption.
+  - inversion Hl as [|? ? _ Hlp]; subst.
+    rewrite (advance_sem _ x f' par eq_refl Hlp). cbn [cur_sem]. rewrite flat_frame_cons, <- app_assoc. reflexivity.
+Qed.
+
+Lemma cinv_tl T i f g p : cinv T i (f :: g :: p) -> cinv T (S i) (g :: p).
+Proof.
+  intros (_ & [_ Hso] & Hlod & Hli & Hpos). split; [discriminate|]. split; [exact Hso|]. split; [|split].
+  - destruct Hlod as [Hl|Hd]; [left; inversion Hl; assumption | right; inversion Hd; assumption].
+  - apply (linked_tl _ _ Hli).
+  - unfold pos_ok in *. cbn [sems] in Hpos. inversion Hpos; assumption.
+Qed.
+
+(* the start cursor satisfies the invariant *)
+Lemma descend_cinv T n : forall c, cinv T n c -> cinv T 0 (descend n c).
+Proof.
+  induction n as [|n IH]; intros c H; [exact H|].
+  cbn [descend]. apply IH. apply (refetch_cinv T n c H).
+Qed.
+
+Theorem cursor_at_start_cinv t : wf_root t -> cinv (flatten t) 0 (cursor_at_start t).
+Proof.
+  intros Hwf. unfold cursor_at_start. apply descend_cinv.
+  repeat split; try discriminate.
+  - destruct Hwf as [->|[Hs _]]; [constructor | apply items_frame_ok, Hs].
+  - destruct Hwf as [->|[Hs _]].
+    + right. constructor; [reflexivity|constructor].
+    + left. constructor; [apply shape_items_ne, Hs|constructor].
+  - unfold pos_ok. cbn [sems above]. constructor; [|constructor].
+    rewrite app_nil_r, flat_frame_items. apply suffix_refl.
+Qed.
+
+Lemma descend_length n : forall c, length (descend n c) = (n + length c)%nat.
+Proof.
+  induction n as [|n IH]; intros c; [reflexivity|]. cbn [descend]. rewrite IH, refetch_length. lia.
+Qed.
+
+Lemma cursor_at_start_length t : length (cursor_at_start t) = S (level t).
+Proof. unfold cursor_at_start. rewrite descend_length. cbn [length]. lia. Qed.
